@@ -2,6 +2,7 @@ import Driver.Common
 import Driver.AstJson
 import Driver.SchemaJson
 import GqlModel.Cost
+import GqlModel.OverlapCost
 /-! Driver for C19 (and the plan part of C09):
 `{"schema":<SchemaDesc>,"doc":<astjson document>,"op":"name","vars":{"v":true,…},"world":<node>}` with
 `node = [[responseKey, runtimeType, node], …]`  →  the model's counters after PlanQuery and after executing the
@@ -47,12 +48,25 @@ def handle (j : Json) : Except String Json := do
   let fs := fragsSize (fragTable doc)
   let workBound := top + (r.log.map (fun en => (en.subs.map (fun ss => 1 + inlSet ss.1)).sum + fs)).sum
   let planErr := match selectOp s doc op with | .ok _ => false | .error _ => true
+  -- validation side (c02b's model of the overlap rule): sizes, the proved bound, and on request the model's counters
+  let wantOverlap := match j.getObjVal? "overlap" with | .ok (.bool b) => b | _ => false
+  let ov := if wantOverlap then
+      let st := (Validate.Overlap.overlapM s doc).1
+      Json.mkObj [("nFC", Json.num st.nFC), ("cntFF", Json.num st.cntFF), ("cntBF", Json.num st.cntBF), ("oof", Json.bool st.oof)]
+    else Json.null
   return Json.mkObj [
     ("plan", Json.arr #[Json.num pc.collect, Json.num pc.pms]),
     ("exec", Json.arr #[Json.num r.counts.collect, Json.num r.counts.pms]),
     ("top", Json.num top), ("workBound", Json.num workBound), ("fragsSize", Json.num fs),
     ("worldSize", Json.num world.size), ("dynamic", Json.bool (docDynamic doc)),
-    ("planErr", Json.bool planErr), ("oof", Json.bool r.oof)]
+    ("planErr", Json.bool planErr), ("oof", Json.bool r.oof),
+    ("overlapBound", Json.num (Validate.Overlap.overlapBound doc)),
+    ("ffBound", Json.num ((2 * (Validate.Overlap.nSets doc * Validate.Overlap.nSpreadNames doc) : Nat))),
+    ("bfBound", Json.num ((2 * (Validate.Overlap.nFrags doc * Validate.Overlap.nFrags doc) : Nat))),
+    ("sizes", Json.arr #[Json.num (Validate.Overlap.nFieldsDoc doc), Json.num (Validate.Overlap.nSets doc),
+      Json.num (Validate.Overlap.nSpreadNames doc), Json.num (Validate.Overlap.nFrags doc)]),
+    ("locsDistinct", Json.bool (Validate.Overlap.locsDistinct doc)),
+    ("overlap", ov)]
 
 end Driver.C19
 
